@@ -22,19 +22,19 @@ class Ctx:
         if unlimited:
             l = (l if l != '-' else '') + 'u'
         return l
-    def impl(self, cfg, lines):
+    def impl(self, cfg, lines, name='sjh'):
         if not self.quiet:
             self.evaluations += len(lines)
-        return engine.run_impl(cfg, lines, tag=self.pid)
-    def model(self, lines):
+        return engine.run_impl(cfg, lines, tag=self.pid, name=name)
+    def model(self, lines, name='sjdriver'):
         if not self.model_ok:
             return ['NOMODEL'] * len(lines)
-        return engine.run_model(lines, tag=self.pid)
-    def both(self, cfg, lines):
+        return engine.run_model(lines, tag=self.pid, name=name)
+    def both(self, cfg, lines, impl_name='sjh', model_name='sjdriver'):
         from concurrent.futures import ThreadPoolExecutor
         with ThreadPoolExecutor(max_workers=2) as ex:
-            fi = ex.submit(self.impl, cfg, lines)
-            fm = ex.submit(self.model, lines)
+            fi = ex.submit(self.impl, cfg, lines, impl_name)
+            fm = ex.submit(self.model, lines, model_name)
             return fi.result(), fm.result()
     def sample(self, obj):
         if len(self.samples) < 12:
